@@ -187,6 +187,8 @@ class Pi2Lev(schemes.interface.inverted_index_sse.InvertedIndexSSE):
         while not is_in_file_id_level:
             curr_level_result = []
             if curr_process_level == 0:
+                if any(block_addr not in D for block_addr in prev_level_result):
+                    return Pi2LevResult([])  # the keyword is not in the database
                 block_cipher_list = (D[block_addr]
                                      for block_addr in prev_level_result)
             else:
